@@ -221,6 +221,27 @@ fn programs(len: usize, back: bool) -> Vec<Vec<St>> {
     if !back {
         return vec![vec![St::Next; len]];
     }
+    if len > 12 {
+        // deep queues: a structured family instead of all 2^len programs: j calls from one end
+        // then the rest from the other (every j, both ways), alternations with every period
+        let mut out: Vec<Vec<St>> = vec![];
+        for j in 0..=len {
+            out.push((0..len).map(|i| if i < j { St::Back } else { St::Next }).collect());
+            out.push((0..len).map(|i| if i < j { St::Next } else { St::Back }).collect());
+        }
+        for period in 1..=4 {
+            out.push((0..len).map(|i| if (i / period) % 2 == 0 { St::Back } else { St::Next }).collect());
+            out.push((0..len).map(|i| if (i / period) % 2 == 0 { St::Next } else { St::Back }).collect());
+        }
+        // one call from the back, k from the front, again one from the back ...
+        for k in 2..=5 {
+            out.push((0..len).map(|i| if i % (k + 1) == 0 { St::Back } else { St::Next }).collect());
+            out.push((0..len).map(|i| if i % (k + 1) == 0 { St::Next } else { St::Back }).collect());
+        }
+        out.sort_by_key(|p| p.iter().map(|s| *s == St::Back).collect::<Vec<_>>());
+        out.dedup();
+        return out;
+    }
     (0..(1u32 << len)).map(|x| (0..len).map(|i| if x >> i & 1 == 1 { St::Back } else { St::Next }).collect()).collect()
 }
 
